@@ -752,6 +752,46 @@ func ruleBase10(c *Ctx) {
 	pu := c.fn("util", "ParseUint")
 	if pu == nil {
 		c.missing("util.ParseUint")
+		return
+	}
+	// ... which reads plain decimal: folded on probe spellings, the value is the decimal value (zero padding changes
+	// nothing) and anything but a string of ASCII digits is an error
+	probes := []string{"0", "1", "7", "9", "10", "12", "100", "120", "960", "010", "0100", "007", "00", "000", "0012300", "1000000", "4294967296",
+		"", " ", "x", "1x", "x1", "-1", "+1", " 1", "1 ", "0x10", "0b1", "0o7", "1_0", "1.0", "1e3", "1/2", "\u0663", "\uff11"}
+	problem, folded := "", 0
+	for _, sp := range probes {
+		r, err := c.newFolder().foldCall(pu, []fval{{k: constant.MakeString(sp), t: types.Typ[types.String]}})
+		if err != nil || len(r.tuple) != 2 || !(r.tuple[1].isNil || r.tuple[1].nonNil) {
+			continue
+		}
+		folded++
+		digits := sp != ""
+		var want uint64
+		for _, ch := range sp {
+			if ch < '0' || ch > '9' {
+				digits = false
+				break
+			}
+			want = want*10 + uint64(ch-'0')
+		}
+		okGot := r.tuple[1].isNil
+		switch {
+		case okGot != digits && digits:
+			problem = fmt.Sprintf("%q is refused, it is a decimal number", sp)
+		case okGot != digits:
+			problem = fmt.Sprintf("%q is accepted, it is not a string of decimal digits", sp)
+		case digits:
+			if r.tuple[0].k == nil || r.tuple[0].k.Kind() != constant.Int {
+				continue
+			}
+			if got, _ := constant.Uint64Val(r.tuple[0].k); got != want {
+				problem = fmt.Sprintf("%q is read as %d, it is %d", sp, got, want)
+			}
+		}
+	}
+	if folded >= len(probes)/2 {
+		c.site(1)
+		c.check(problem == "", "util.ParseUint|decimal", c.pos(pu.Pos()), fname(pu), fmt.Sprintf("%d probe spellings folded: decimal value, digits only", folded), "util.ParseUint: "+problem+": a duration, tempo or interval number written that way means something else than it says")
 	}
 }
 
